@@ -96,6 +96,83 @@ var ops = []op{
 	}},
 }
 
+// refIndex is the boring reference: service -> registry shard -> endpoint addresses.
+type refIndex map[string]map[string][]string
+
+func (r refIndex) set(svc, shard string, eps []string) {
+	if len(eps) == 0 {
+		delete(r[svc], shard)
+		return
+	}
+	if r[svc] == nil {
+		r[svc] = map[string][]string{}
+	}
+	r[svc][shard] = eps
+}
+
+func (r refIndex) dropShardEverywhere(shard string, keep map[string]bool) {
+	for svc := range r {
+		if !keep[svc] {
+			delete(r[svc], shard)
+		}
+	}
+}
+
+func (r refIndex) String() string {
+	var out []string
+	for svc, m := range r {
+		for sh, eps := range m {
+			out = append(out, fmt.Sprintf("%s@%s=%v", svc, sh, eps))
+		}
+	}
+	sort.Strings(out)
+	return strings.Join(out, " ")
+}
+
+// refOps gives each call's meaning on the reference, by op name.
+var refOps = map[string]func(r refIndex){
+	"A.update[e1]":           func(r refIndex) { r.set(svcName, "c1", []string{"10.0.0.1"}) },
+	"B.update[e2]":           func(r refIndex) { r.set(svcName, "c2", []string{"10.0.0.2"}) },
+	"B.update[e2,sa2]":       func(r refIndex) { r.set(svcName, "c2", []string{"10.0.0.2"}) },
+	"A.update[]":             func(r refIndex) { r.set(svcName, "c1", nil) },
+	"A.serviceDelete":        func(r refIndex) { r.set(svcName, "c1", nil) },
+	"B.serviceDelete":        func(r refIndex) { r.set(svcName, "c2", nil) },
+	"A.clusterRemoved":       func(r refIndex) { r.dropShardEverywhere("c1", nil) },
+	"A.prune":                func(r refIndex) { r.dropShardEverywhere("c1", map[string]bool{svc2: true}) },
+	"A.update[e1,unhealthy]": func(r refIndex) { r.set(svcName, "c1", []string{"10.0.0.1"}) },
+	"read":                   func(r refIndex) {},
+}
+
+var refInitials = map[string]func(r refIndex){
+	"empty": func(r refIndex) {},
+	"A":     func(r refIndex) { r.set(svcName, "c1", []string{"10.0.0.9"}) },
+	"A+B": func(r refIndex) {
+		r.set(svcName, "c1", []string{"10.0.0.9"})
+		r.set(svcName, "c2", []string{"10.0.0.8"})
+	},
+	"A+other": func(r refIndex) {
+		r.set(svcName, "c1", []string{"10.0.0.9"})
+		r.set(svc2, "c1", []string{"10.0.1.9"})
+	},
+}
+
+// contents projects the real index onto the reference's vocabulary.
+func contents(e *model.EndpointIndex) string {
+	r := refIndex{}
+	for svc, byNs := range e.Shardz() {
+		for _, sh := range byNs {
+			for k, eps := range sh.Shards {
+				var a []string
+				for _, x := range eps {
+					a = append(a, x.FirstAddressOrNil())
+				}
+				r.set(svc, string(k.Cluster), a)
+			}
+		}
+	}
+	return r.String()
+}
+
 var initials = []struct {
 	name  string
 	build func(e *model.EndpointIndex)
@@ -215,7 +292,12 @@ func admits(q, o outcome) bool {
 	return true
 }
 
-func sequential(sc scenario) []outcome {
+func sequential(sc scenario) []outcome { return sequentialChecked(sc, nil) }
+
+// sequentialChecked additionally compares every sequential order on the real code with the
+// reference index (so that a defect that is not a race is not hidden by using the real code as its
+// own sequential specification).
+func sequentialChecked(sc scenario, res *engine.Result) []outcome {
 	lens := make([]int, len(sc.Threads))
 	for i, t := range sc.Threads {
 		lens[i] = len(t)
@@ -226,8 +308,17 @@ func sequential(sc scenario) []outcome {
 		e := model.NewEndpointIndex(&recCache{})
 		initials[sc.Init].build(e)
 		rets := make([][]string, len(sc.Threads))
+		ref := refIndex{}
+		refInitials[initials[sc.Init].name](ref)
+		var names []string
 		for _, o := range order {
-			rets[o[0]] = append(rets[o[0]], ops[sc.Threads[o[0]][o[1]]].run(e))
+			op := ops[sc.Threads[o[0]][o[1]]]
+			rets[o[0]] = append(rets[o[0]], op.run(e))
+			refOps[op.name](ref)
+			names = append(names, op.name)
+		}
+		if res != nil && contents(e) != ref.String() {
+			res.Violate("sequential-semantics:"+names[len(names)-1], fmt.Sprintf("from %s the sequence %v leaves %q, the reference index has %q", initials[sc.Init].name, names, contents(e), ref.String()), replayC13{Scenario: sc})
 		}
 		o := outcome{rets, dump(e)}
 		if !seen[o.String()] {
@@ -316,7 +407,7 @@ func TestC13a(t *testing.T) {
 		if err := engine.ReadReplay(env.Replay, &rp); err != nil {
 			t.Fatal(err)
 		}
-		checkExecution(t, res, rp.Scenario, sequential(rp.Scenario), sched.NewChooser(rp.Choices), true)
+		checkExecution(t, res, rp.Scenario, sequentialChecked(rp.Scenario, res), sched.NewChooser(rp.Choices), true)
 		return
 	}
 	bound := 2
@@ -335,7 +426,7 @@ func TestC13a(t *testing.T) {
 			res.Cap(fmt.Sprintf("deadline at scenario %d/%d", i, len(scs)))
 			break
 		}
-		seq := sequential(sc)
+		seq := sequentialChecked(sc, res)
 		outcomes := map[string]bool{}
 		// determinism: the default schedule, run twice, must give identical observations
 		o1, l1, _, _ := runOne(t, sc, sched.NewChooser(nil))
